@@ -11,6 +11,18 @@
   corollaries: no lost flag update, flag/last independence under concurrency, exactly one winner
   among concurrent test-and-clear (the 'updated' notice) / test-and-set callers.  The code before
   the repair (`Store(Load() | v)`) provably loses an update on a 4-step schedule.
+
+  Scope notes (from an adversarial review of these statements, see DESIGN.md Appendix B.5):
+  * `setChannel`, `tag` and the predicates that load the word more than once are stated for ONE
+    caller at a time (sequential part); the concurrent theorems cover Set / Unset / SetLast / trySet /
+    tryUnset. Two concurrent identical `SetChannel(true)` calls can both report "changed", and a
+    multi-load predicate can straddle a concurrent close; neither is claimed here.
+  * `standing` is the early-return guard of `SetChannel` by design ("changes state only when it
+    differs from the standing request" is what that guard implements); `closed_dominates` unfolds the
+    predicates, whose shapes are those of c2/state.go (compared with the real methods on all 2^16 flag
+    words by the differential run).
+  * `linearizable` gives an order that keeps every thread's program order; real-time order between
+    threads is not part of the statement.
 -/
 import XMT.StateLemmas
 import XMT.StateConcLemmas
